@@ -323,7 +323,9 @@ class JSONGrammar(BaseGrammar):
         """
         self.__schema_builder.add_schema(schema, not merge)
         self.__init_dependencies()
-        self._required_names |= self.__schema_builder.required
+        # The required names of the schema builder cannot be used here: genson
+        # intersects them with the ones from the previous updates.
+        self._required_names |= set(schema.get("required", ()))
         self.__schema_builder.required.clear()
 
     def to_file(self, path: Path | str = "") -> None:
